@@ -83,6 +83,7 @@ type Run struct {
 
 	start      time.Time
 	deadline   time.Time
+	oneWorker  bool // see OneWorkerFromNow
 	mu         sync.Mutex
 	clauses    []*ClauseStat
 	samples    []any
@@ -177,6 +178,11 @@ func (r *Run) HarnessError(format string, a ...any) {
 	r.mu.Unlock()
 }
 
+// OneWorkerFromNow makes every later clause run its cases one at a time. Called once a detector pass has
+// shown that library calls disturb each other when they overlap: the enumerations that follow are about
+// what ONE caller sees, and overlapping calls would bury that under corrupted memory.
+func (r *Run) OneWorkerFromNow() { r.oneWorker = true }
+
 // Expired reports whether the soft deadline has passed.
 func (r *Run) Expired() bool { return time.Now().After(r.deadline) }
 
@@ -223,7 +229,7 @@ func Clause[T any](r *Run, name string, o Opts, gen func(emit func(T) bool), che
 	if workers <= 0 {
 		workers = runtime.GOMAXPROCS(0)
 	}
-	if o.Serial {
+	if o.Serial || r.oneWorker {
 		workers = 1
 	}
 	type wstate struct {
